@@ -16,10 +16,14 @@ m = re.search(r"go test[^\n]*-run\s+'?\"?([\w|^$()]+)", head)
 runpat = m.group(1) if m else "Mutant"
 m = re.search(r"(?:place[d]? in|directory|dir)[^\n]*?((?:[\w\-]+/)+[\w\-]+)", head)
 pkgdir = None
-for cand in re.findall(r"((?:[\w\-]+/)+[\w\-]+)/?", head):
-    if os.path.isdir(os.path.join(wt, cand)):
-        pkgdir = cand
-        break
+m = re.search(r"go test[^\n]*\s\./([\w\-/]+?)/?\s*$", head, re.M)
+if m and os.path.isdir(os.path.join(wt, m.group(1))):
+    pkgdir = m.group(1)
+else:
+    for cand in re.findall(r"((?:[\w\-]+/)+[\w\-]+)/?", head):
+        if os.path.isdir(os.path.join(wt, cand)):
+            pkgdir = cand
+            break
 if not pkgdir:
     print("cannot determine package dir"); sys.exit(2)
 dst = os.path.join(wt, pkgdir, "zz_mutant_demo_test.go")
